@@ -1,4 +1,272 @@
-(* Append.v -- stub; the model that belongs here is being written. *)
-From P7 Require Import Prelude.
+(* Append.v -- an append session of py7zr as a transformation of the parsed header graph
+   (property C08, "append preserves history").  Definitions only; proofs in AppendProofs.v.
+
+   Code modelled (py7zr/py7zr.py, py7zr/archiveinfo.py), line by line:
+     SevenZipFile.__init__ mode "a":  _real_get_contents (the generated name for entries without
+                                      one: `open_names`), _prepare_append (`append_position`)
+     write/_writef/_register_and_archive:  Header.initialize (`initialize`), files_info.files.append,
+                                      Worker.archive -> Worker._after_write (`add_member`, `after_write`)
+     close/_write_flush:              Worker.flush_archive (`flush`), then Header.write (Header.v write_header
+                                      with `enable_digests`)
+   What the codec layer contributes is a parameter of the session: the new Folder object (coders,
+   bonds, and the unpack sizes `compressor.unpacksizes` stored at flush), per data member its size and
+   CRC32, the packed size and the CRC of the packed stream.
+
+   Tie to the code: tools/harness/c08model.py runs `append_session` / `append_position` (through the
+   dispatcher below) and the real session on the same header graphs and compares the graphs. *)
+From P7 Require Import Prelude PyPrims Number Header HeaderCodec.
 Open Scope Z_scope.
-Definition append_dispatch (fn : Z) (a : tree) : tree := TL [TI (-2)].
+
+(* a member added by the session: its file entry and, for a member with a data stream, (size, crc32) *)
+Record new_member := mkMember { m_file : fileent; m_stream : option (Z * Z) }.
+
+(* ------------------------------------------------------------------ *)
+(* opening for append                                                  *)
+(* ------------------------------------------------------------------ *)
+(* _real_get_contents: `if "filename" not in file_info: file_info["filename"] = <generated>`; the dicts
+   are the ones the header graph holds, so the generated name is written back by the session.
+   dflt = "contents" for a stream without a name, else the archive's base name without extension *)
+Definition fill_name (dflt : list Z) (e : fileent) : fileent :=
+  match e_name e with Some _ => e | None => set_name e dflt end.
+Definition open_names (dflt : list Z) (h : header) : header :=
+  mkHeader (h_streams h) (option_map (map (fill_name dflt)) (h_files h)) (h_emptyfiles h).
+
+(* SevenZipFile.__init__, mode "a", on a file that starts with the 7z signature: the header is read;
+   when that fails the exception is passed on (Bad7zFile is re-raised: an archive that cannot be
+   read is never replaced by a new one) and nothing has been written *)
+Definition open_for_append (lim : Z) (dflt : list Z) (hdr : bytes) : res header :=
+  do h <- parse_header lim hdr; Ok (open_names dflt h).
+
+(* PackInfo._read: packpositions = [sum(packsizes[:i]) for i in range(numstreams + 1)]; [-1] *)
+Definition pack_end (p : packinfo) : Z := sumZ (takeZ (p_numstreams p) (p_sizes p)).
+
+(* _prepare_append: where the new packed stream is written (fp.seek(pos); Worker(..., pos, ...)) *)
+Definition append_position (h : header) (afterheader : Z) : res Z :=
+  match h_streams h with
+  | None => Ok afterheader
+  | Some st =>
+      match si_pack st with
+      | Some p => Ok (afterheader + p_pos p + pack_end p)
+      | None => Err EOther                      (* AttributeError: None.packpos *)
+      end
+  end.
+
+(* packinfo.enable_digests as the session sees it: PackInfo._read leaves `any(digestdefined)`
+   (the CRC list is kept aligned with the streams, 0 where undefined); a header created by
+   initialize() has `password is not None` *)
+Definition enable_digests (pw : bool) (h : header) : bool :=
+  match h_streams h with
+  | None => pw
+  | Some st => match si_pack st with
+               | Some p => any_true (p_digestdefined p)
+               | None => false
+               end
+  end.
+
+(* ------------------------------------------------------------------ *)
+(* Header.initialize (first write call of the session)                 *)
+(* ------------------------------------------------------------------ *)
+(* [f.get_unpack_size() for f, n in zip(folders[:-1], num_unpackstreams_folders) for _ in range(n)] *)
+Fixpoint recover_sizes (fs : list folder) (ns : list Z) : res (list Z) :=
+  match fs, ns with
+  | f :: r, n :: nr =>
+      if n <=? 0 then recover_sizes r nr else
+      do v <- folder_unpack_size f;
+      do t <- recover_sizes r nr;
+      Ok (repeat v (Z.to_nat n) ++ t)
+  | _, _ => Ok []
+  end.
+
+Definition fresh_streams (nf : folder) : streamsinfo :=
+  mkStreams (Some (mkPack 0 0 [] [] [])) (Some [nf]) (Some (mkSub [0] (Some []) [] [])).
+
+Definition initialize (h : header) (nf : folder) : res header :=
+  match h_streams h with
+  | None =>
+      (* "create new header"; the entries of an archive without data streams are kept *)
+      Ok (mkHeader (Some (fresh_streams nf))
+                   (Some (match h_files h with Some f => f | None => [] end))
+                   (h_emptyfiles h))
+  | Some st =>
+      (* append mode *)
+      do sub' <- (match si_sub st with
+                  | None => Ok None                        (* "unexpected": nothing is done *)
+                  | Some s =>
+                      do sz <- (match s_sizes s, si_folders st with
+                                | None, Some fs => do r <- recover_sizes fs (s_nums s); Ok (Some r)
+                                | o, _ => Ok o
+                                end);
+                      Ok (Some (mkSub (s_nums s ++ [0]) sz (s_digestsdefined s) (s_digests s)))
+                  end);
+      Ok (mkHeader (Some (mkStreams (si_pack st) (option_map (fun fs => fs ++ [nf]) (si_folders st)) sub'))
+                   (h_files h) (h_emptyfiles h))
+  end.
+
+(* ------------------------------------------------------------------ *)
+(* one write call: register the entry, archive its data                *)
+(* ------------------------------------------------------------------ *)
+(* num_unpackstreams_folders[-1] += 1 *)
+Fixpoint incr_last (l : list Z) : res (list Z) :=
+  match l with
+  | [] => Err EOther
+  | [n] => Ok [n + 1]
+  | x :: r => do r' <- incr_last r; Ok (x :: r')
+  end.
+
+(* Worker._after_write *)
+Definition after_write (s : substreams) (sz crc : Z) : res substreams :=
+  do nums' <- incr_last (s_nums s);
+  Ok (mkSub nums' (Some (match s_sizes s with None => [sz] | Some l => l ++ [sz] end))
+            (s_digestsdefined s ++ [true]) (s_digests s ++ [crc])).
+
+Definition add_member (h : header) (m : new_member) : res header :=
+  match h_files h with
+  | None => Err EOther                         (* AttributeError: None.files *)
+  | Some fl =>
+      let files' := fl ++ [m_file m] in
+      (* a new entry has no "emptyfile" key: its EmptyFile bit is written as False *)
+      let ef' := h_emptyfiles h ++ (if e_emptystream (m_file m) then [false] else []) in
+      match m_stream m with
+      | None => Ok (mkHeader (h_streams h) (Some files') ef')
+      | Some (sz, crc) =>
+          match h_streams h with
+          | Some st =>
+              match si_sub st with
+              | Some s => do s' <- after_write s sz crc;
+                          Ok (mkHeader (Some (mkStreams (si_pack st) (si_folders st) (Some s'))) (Some files') ef')
+              | None => Err EOther              (* AttributeError: None.digestsdefined *)
+              end
+          | None => Err EOther
+          end
+      end
+  end.
+
+Fixpoint add_members (h : header) (ms : list new_member) : res header :=
+  match ms with
+  | [] => Ok h
+  | m :: r => do h' <- add_member h m; add_members h' r
+  end.
+
+(* ------------------------------------------------------------------ *)
+(* close: Worker.flush_archive                                         *)
+(* ------------------------------------------------------------------ *)
+Definition flush (en : bool) (h : header) (packsize packcrc : Z) : res header :=
+  match h_streams h with
+  | None => Err EOther
+  | Some st =>
+      match si_folders st, si_pack st with
+      | Some _, Some p =>
+          let p' := mkPack (p_pos p) (p_numstreams p + 1) (p_sizes p ++ [packsize])
+                           (if en then p_digestdefined p ++ [true] else p_digestdefined p)
+                           (if en then p_crcs p ++ [packcrc] else p_crcs p) in
+          Ok (mkHeader (Some (mkStreams (Some p') (si_folders st) (si_sub st))) (h_files h) (h_emptyfiles h))
+      | _, _ => Err EOther                      (* AttributeError on None *)
+      end
+  end.
+
+(* ------------------------------------------------------------------ *)
+(* the session                                                         *)
+(* ------------------------------------------------------------------ *)
+(* h: the graph after opening (open_names applied); nf: the Folder object of the session with the
+   unpack sizes it has at flush; a session without a write call leaves the graph as it is
+   (header._initialized is False: no flush, the header is written back) *)
+Definition append_session (pw : bool) (h : header) (nf : folder) (members : list new_member)
+           (packsize packcrc : Z) : res header :=
+  match members with
+  | [] => Ok h
+  | _ :: _ =>
+      do h1 <- initialize h nf;
+      do h2 <- add_members h1 members;
+      flush (enable_digests pw h) h2 packsize packcrc
+  end.
+
+(* k sessions; `reopen` is what closing and opening again does to the graph *)
+Record session := mkSession { ss_folder : folder; ss_members : list new_member; ss_packsize : Z; ss_packcrc : Z }.
+
+Fixpoint append_sessions (reopen : header -> res header) (pw : bool) (h : header) (ss : list session) : res header :=
+  match ss with
+  | [] => Ok h
+  | s :: r =>
+      do h1 <- append_session pw h (ss_folder s) (ss_members s) (ss_packsize s) (ss_packcrc s);
+      do h2 <- reopen h1;
+      append_sessions reopen pw h2 r
+  end.
+
+(* closing and opening again: Header.write(encoded=False) then Header._read, then the generated names *)
+Definition reopen_via_bytes (lim : Z) (en : bool) (pos : Z) (dflt : list Z) (h : header) : res header :=
+  do bs <- write_header en pos h;
+  do h' <- parse_header lim bs;
+  Ok (open_names dflt h').
+
+(* ------------------------------------------------------------------ *)
+(* the hypotheses of the theorems (AppendProofs.v), computable          *)
+(* ------------------------------------------------------------------ *)
+Definition is_data (e : fileent) : bool := negb (e_emptystream e).
+Definition count_data (files : list fileent) : Z := zlen (filter is_data files).
+
+(* the reader takes a folder's size from the LAST unpack size, initialize() recovers it with
+   get_unpack_size(): they must name the same value *)
+Definition last_is_main (f : folder) : bool :=
+  match folder_unpack_size f, py_index (f_unpacksizes f) (-1) with
+  | Ok a, Ok b => a =? b
+  | _, _ => false
+  end.
+Fixpoint recover_agrees (fs : list folder) (ns : list Z) : bool :=
+  match fs, ns with
+  | f :: r, n :: nr => ((n <=? 0) || last_is_main f) && recover_agrees r nr
+  | _, _ => true
+  end.
+
+(* a base graph whose sections describe one another: one count per folder, one size / digest slot per
+   sub-stream, one sub-stream per entry with data; without streams no entry has data *)
+Definition base_ok (h : header) : bool :=
+  match h_streams h with
+  | None => match h_files h with Some fl => forallb e_emptystream fl | None => true end
+  | Some st =>
+      match si_pack st, si_folders st, si_sub st, h_files h with
+      | Some _, Some fs, Some s, Some fl =>
+          (zlen (s_nums s) =? zlen fs) && forallb (fun n => 0 <=? n) (s_nums s)
+          && (match s_sizes s with
+              | Some sz => zlen sz =? sumZ (s_nums s)
+              | None => recover_agrees fs (s_nums s)
+              end)
+          && (zlen (s_digestsdefined s) =? sumZ (s_nums s)) && (zlen (s_digests s) =? sumZ (s_nums s))
+          && (count_data fl =? sumZ (s_nums s))
+      | _, _, _, _ => false
+      end
+  end.
+
+(* a member has a data stream iff its entry is not an empty-stream entry (Worker.archive) *)
+Definition member_ok (m : new_member) : bool :=
+  Bool.eqb (e_emptystream (m_file m)) (match m_stream m with None => true | Some _ => false end).
+Definition new_sizes (ms : list new_member) : list Z :=
+  flat_map (fun m => match m_stream m with Some (sz, _) => [sz] | None => [] end) ms.
+Definition new_crcs (ms : list new_member) : list Z :=
+  flat_map (fun m => match m_stream m with Some (_, c) => [c] | None => [] end) ms.
+
+(* ------------------------------------------------------------------ *)
+(* tree glue                                                           *)
+(* ------------------------------------------------------------------ *)
+Definition of_member (t : tree) : new_member :=
+  mkMember (of_file (tnth t 0)) (of_opt (fun p => (of_TI (tnth p 0), of_TI (tnth p 1))) (tnth t 1)).
+
+Definition append_dispatch (fn : Z) (a : tree) : tree :=
+  match fn with
+  (* FN 460 append_session : (pw header folder members packsize packcrc) -> res header *)
+  | 460 => t_res t_header (append_session (of_bool (tnth a 0)) (of_header (tnth a 1)) (of_folder (tnth a 2))
+                                          (of_list of_member (tnth a 3)) (of_TI (tnth a 4)) (of_TI (tnth a 5)))
+  (* FN 461 append_position : (header afterheader) -> res int *)
+  | 461 => t_res TI (append_position (of_header (tnth a 0)) (of_TI (tnth a 1)))
+  (* FN 462 open_names : (dflt header) -> header *)
+  | 462 => t_header (open_names (of_Zs (tnth a 0)) (of_header (tnth a 1)))
+  (* FN 463 append_enable_digests : (pw header) -> bool *)
+  | 463 => t_bool (enable_digests (of_bool (tnth a 0)) (of_header (tnth a 1)))
+  (* FN 465 append_reopen : (lim en pos dflt header) -> res header *)
+  | 465 => t_res t_header (reopen_via_bytes (of_TI (tnth a 0)) (of_bool (tnth a 1)) (of_TI (tnth a 2))
+                                            (of_Zs (tnth a 3)) (of_header (tnth a 4)))
+  (* FN 464 open_for_append : (lim dflt header-bytes) -> res header *)
+  | 464 => t_res t_header (open_for_append (of_TI (tnth a 0)) (of_Zs (tnth a 1)) (of_bytes (tnth a 2)))
+  (* FN 466 append_base_ok : header -> bool *)
+  | 466 => t_bool (base_ok (of_header a))
+  | _ => TL [TI (-2)]
+  end.
